@@ -145,6 +145,7 @@ fn check_alone(st: &mut St, m: &mut M) {
         st.crashed += 1;
         return;
     }
+    let leaves_of_base_run = mc::exec::leaves();
     let mut none = Flat::default();
     none.push(&m.eff.pre);
     let mut all = none.clone();
@@ -169,6 +170,24 @@ fn check_alone(st: &mut St, m: &mut M) {
                 ),
             )
         });
+    }
+    // the observation must not depend on where the handler / writer futures suspend
+    for i in 0..leaves_of_base_run {
+        for k in [1u8, 2] {
+            let p = Pattern::one(i, k);
+            let (o2, obs2) = run_obs(&m.bytes, p);
+            st.execs += 1;
+            if o2.end == End::Returned && obs2 != obs {
+                let feat = vec![("fault_kind", kind_name(&m.fault)), ("kind", "depends-on-pending-pattern".to_string())];
+                let bytes = m.bytes.clone();
+                st.groups.add("alone", &feat, (bytes.len(), &bytes), || {
+                    (
+                        json!({"mode": "run", "input": hex(&bytes), "pattern": p.to_json()}),
+                        format!("run(\"{}\") with Pending pattern {:?}: {} ; without suspension: {}", show(&bytes), p.to_json(), obs2.show(), obs.show()),
+                    )
+                });
+            }
+        }
     }
     m.alone = obs;
 }
